@@ -60,6 +60,19 @@ Targets (each regenerated on every run of the checks that use them; the output d
         `body_of_<loop>` = the composition of `part<k>_of_<loop>`, the body cut at every `if`; `while (norm > tol)` with fuel = number of TESTS;
         Props/C12Gen2.lean: one pass of the while body = Model/PolAdv.lean `sweep` incl. the norm, the while = `implLoop` (fuel N+1 vs N), the call = `implStep`)
 
+  the 2-D cross and vector entry points   (targets cross2d | vec2d)
+        nu_eval_spline_2d_cross, cu_eval_spline_2d_cross    -> lean/PygyroVerif/Generated/Cross2DGen.lean   (nested `enumerate` loops, kernel calls and the slice copy
+        inside them, a written 2-D array parameter `z[i, j]`; Props/C07Gen6.lean: z[i, j] = what the generated scalar 2-D kernel returns at (X[i], Y[j]), nothing
+        outside len(X) x len(Y); Props/C12Gen3.lean: the table contract of C12Gen / C12Gen2 discharged with these functions)
+        nu_eval_spline_2d_vector, cu_eval_spline_2d_vector  -> lean/PygyroVerif/Generated/Vec2DGen.lean     (`for i in range(len(x))`, array parameters without `Final`;
+        Props/C07Gen7.lean: z[k] = the scalar kernel at (x[k], y[k]), nothing beyond len(x))
+  pygyro/initialisation/initialiser_funcs.py   (target initfuncs)
+        n0, Ti, Te, perturbation, f_eq, n0deriv_normalised, init_f, init_f_flux, init_f_pol, init_f_vpar, feq_vector
+                                    -> lean/PygyroVerif/Generated/InitFuncsGen.lean      (part 5: scalar functions whose body is one `return <expression>` = plain
+        definitions over `Rat`; the numpy names imported in the bodies (`exp`, `tanh`, `cos`, `sqrt`, `pi`) = fields of the UNINTERPRETED record `Np`, `real(x) = x`,
+        `e ** n` with a literal n; the fillers as kernels with `f_eq` / `perturbation` bound to the translations of the same module; Props/C05Gen.lean: closed
+        formulas, and every entry of a filled array is the scalar function at that entry's own coordinates)
+
 Props/C20Gen.lean and Props/C02Gen.lean prove that the generated definitions equal the hand-written models the other
 theorems are about (so those theorems hold of what the source says *now*).  The translator REFUSES (exit status 3, no Lean
 file left behind) on any construct outside its subset (subtraction on naturals, float functions, unknown calls, other
@@ -2030,6 +2043,193 @@ def translate_lagvals(repo):
     return head + body + '\nend PygyroVerif.Gen.LagVals\n'
 
 
+# =====================================================================================================================
+# part 5: pure scalar float functions whose body is one `return <expression>` over numpy's elementary functions (initialiser_funcs.py)
+
+INIT_REL = 'pygyro/initialisation/initialiser_funcs.py'
+NP_UNARY = ('exp', 'tanh', 'cos', 'sin', 'sqrt', 'log', 'cosh', 'sinh', 'tan')     # numpy functions kept as UNINTERPRETED `Rat → Rat`
+NP_CONSTS = ('pi',)                                                                   # numpy constants kept as UNINTERPRETED `Rat`
+NP_IDENTITY = ('real',)                                                               # numpy.real of a float is that float
+
+
+class ScalarFuncTranslator:
+    """`@pure def f(a: 'float', …, m: 'int', …) -> 'float':` whose body is an optional docstring, optional `from numpy import …` lines and ONE
+    `return <expression>`  ->  `def f (np : Np) (a : Rat) … (m : Int) … : Rat := <expression>`.  Expressions: parameters, non-negative numeric literals,
+    unary minus, `+ - * /`, `e ** <non-negative integer literal>`, calls of the numpy names imported IN THIS BODY (Python's scoping: a name imported in
+    another function is not visible) and calls of functions of this module translated before."""
+
+    def __init__(self, fname):
+        self.fname = fname
+        self.sigs = {}           # name -> list of (param, 'Rat' | 'Int')
+        self.np_used = []        # numpy names used, in order of first use
+
+    def refuse(self, node, why):
+        raise Refuse(node, why, self.fname)
+
+    def function(self, fn):
+        if fn.args.vararg or fn.args.kwarg or fn.args.kwonlyargs or fn.args.posonlyargs or fn.args.defaults:
+            self.refuse(fn, '%s: only plain positional parameters without default values' % fn.name)
+        if [d.id if isinstance(d, ast.Name) else None for d in fn.decorator_list] != ['pure']:
+            self.refuse(fn, '%s: the decorators must be exactly @pure' % fn.name)
+        ann = lambda x: x.value if isinstance(x, ast.Constant) and isinstance(x.value, str) else (x.id if isinstance(x, ast.Name) else None)  # noqa: E731
+        params = []
+        for a in fn.args.args:
+            t = {'float': 'Rat', 'int': 'Int'}.get(ann(a.annotation))
+            if t is None:
+                self.refuse(a, '%s: parameter %s must be annotated float or int' % (fn.name, a.arg))
+            if a.arg in ('np', 'Np') or a.arg.endswith('_') or a.arg in [q for q, _ in params]:
+                self.refuse(a, '%s: parameter name %s clashes' % (fn.name, a.arg))
+            params.append((a.arg, t))
+        if ann(fn.returns) != 'float':
+            self.refuse(fn, '%s: the return annotation must be float' % fn.name)
+        body = list(fn.body)
+        if body and isinstance(body[0], ast.Expr) and isinstance(body[0].value, ast.Constant) and isinstance(body[0].value.value, str):
+            body = body[1:]
+        imported = []
+        while body and isinstance(body[0], ast.ImportFrom):
+            n = body[0]
+            if n.module != 'numpy' or n.level != 0 or any(x.asname for x in n.names):
+                self.refuse(n, '%s: only `from numpy import <names>` inside the body' % fn.name)
+            for x in n.names:
+                if x.name not in NP_UNARY + NP_CONSTS + NP_IDENTITY:
+                    self.refuse(n, '%s: numpy name %s is outside the subset %s' % (fn.name, x.name, NP_UNARY + NP_CONSTS + NP_IDENTITY))
+                imported.append(x.name)
+            body = body[1:]
+        if len(body) != 1 or not isinstance(body[0], ast.Return) or body[0].value is None:
+            self.refuse(fn, '%s: the body must be [docstring] [from numpy import …] return <expression>' % fn.name)
+        names = dict(params)
+        for nm in imported:
+            if nm in names or nm in self.sigs:
+                self.refuse(fn, '%s: the imported name %s is also a parameter or a function of the module' % (fn.name, nm))
+        for nm, _ in params:
+            if nm in self.sigs or nm == fn.name:
+                self.refuse(fn, '%s: the parameter %s has the name of a function of the module' % (fn.name, nm))
+        txt = self.expr(body[0].value, names, imported, fn.name)
+        self.sigs[fn.name] = params
+        sig = ' '.join('(%s : %s)' % (q, t) for q, t in params)
+        return ('/-- `%s(%s)` (%s:%d): `%s` -/\ndef %s (np : Np) %s : Rat :=\n  %s\n'
+                % (fn.name, ', '.join(q for q, _ in params), self.fname, fn.lineno, ' '.join(ast.unparse(body[0]).split()), fn.name, sig, txt))
+
+    def expr(self, e, names, imported, fname):
+        if isinstance(e, ast.Constant) and type(e.value) is int:
+            if e.value < 0:
+                self.refuse(e, 'negative literal')
+            return '(%d : Rat)' % e.value
+        if isinstance(e, ast.Constant) and type(e.value) is float:
+            import fractions
+            import math
+            if not math.isfinite(e.value) or e.value < 0:
+                self.refuse(e, 'float literal outside the subset')
+            q = fractions.Fraction(e.value)              # the exact value of the binary64 literal
+            return '(%d : Rat)' % q.numerator if q.denominator == 1 else '((%d : Rat) / (%d : Rat))' % (q.numerator, q.denominator)
+        if isinstance(e, ast.Name):
+            if names.get(e.id) == 'Rat':
+                return e.id
+            if names.get(e.id) == 'Int':
+                return '((%s : Int) : Rat)' % e.id
+            if e.id in imported and e.id in NP_CONSTS:
+                if e.id not in self.np_used:
+                    self.np_used.append(e.id)
+                return 'np.%s' % e.id
+            self.refuse(e, '%s: name %s is not a parameter or a numpy constant imported in this body' % (fname, e.id))
+        if isinstance(e, ast.UnaryOp) and isinstance(e.op, ast.USub):
+            return '(-%s)' % self.expr(e.operand, names, imported, fname)
+        if isinstance(e, ast.BinOp) and type(e.op) in (ast.Add, ast.Sub, ast.Mult, ast.Div):
+            op = {ast.Add: '+', ast.Sub: '-', ast.Mult: '*', ast.Div: '/'}[type(e.op)]
+            return '(%s %s %s)' % (self.expr(e.left, names, imported, fname), op, self.expr(e.right, names, imported, fname))
+        if isinstance(e, ast.BinOp) and isinstance(e.op, ast.Pow):
+            if not (isinstance(e.right, ast.Constant) and type(e.right.value) is int and e.right.value >= 0):
+                self.refuse(e, '%s: `**` with an exponent that is not a non-negative integer literal' % fname)
+            return '(%s ^ (%d : Nat))' % (self.expr(e.left, names, imported, fname), e.right.value)
+        if isinstance(e, ast.Call) and isinstance(e.func, ast.Name) and not e.keywords:
+            f = e.func.id
+            if f in names:
+                self.refuse(e, '%s: call of the parameter %s' % (fname, f))
+            if f in imported and f in NP_IDENTITY and len(e.args) == 1:
+                return self.expr(e.args[0], names, imported, fname)          # real(x) of a float x is x
+            if f in imported and f in NP_UNARY and len(e.args) == 1:
+                if f not in self.np_used:
+                    self.np_used.append(f)
+                return '(np.%s %s)' % (f, self.expr(e.args[0], names, imported, fname))
+            if f in self.sigs and f not in imported and len(e.args) == len(self.sigs[f]):
+                parts = []
+                for a, (q, t) in zip(e.args, self.sigs[f]):
+                    if t == 'Int':
+                        if not (isinstance(a, ast.Name) and names.get(a.id) == 'Int'):
+                            self.refuse(e, '%s: the argument for the int parameter %s of %s must be an int parameter' % (fname, q, f))
+                        parts.append(a.id)
+                    else:
+                        parts.append(self.expr(a, names, imported, fname))
+                return '(%s np %s)' % (f, ' '.join(parts))
+        self.refuse(e, '%s: expression `%s` is outside the subset' % (fname, ast.unparse(e)[:80]))
+
+
+INITFUNCS_SEMANTICS = (
+    'Scalar functions (body = one `return <expression>`): a plain Lean definition over exact rationals.  Floats are exact rationals (`/` is exact division,\n'
+    'x/0 = 0; a float literal is its exact binary64 value: `0.5` = 1/2, `2.0` = 2); an `int` parameter is a Lean `Int`, cast where it meets a float;\n'
+    '`e ** n` with a non-negative integer literal `n` is `e ^ n`; unary minus binds as in Python (`-a * b` = `(-a) * b`, `-x**2` = `-(x**2)`).\n'
+    'The numpy names a function imports in its body (`from numpy import …`; a name is visible only in the function that imports it) are NOT interpreted:\n'
+    '%s are fields of the record `Np`, the first parameter `np` of every definition (arbitrary functions `Rat → Rat` / an arbitrary rational: the theorems\n'
+    'hold for every choice).  `real(x)` of a float is `x` (numpy.real of a real number).  A call of a function of the module defined above is the call of its\n'
+    'translation with the same `np`.  Overflow, NaN and the errors numpy reports for `sqrt` / division are not modelled.\n'
+    'Array fillers: translated as the kernels of the other targets (below); inside them `f_eq` and `perturbation` are fields of the record of locals and leading\n'
+    'parameters of `run`; the definition `<name> np U F …` after each namespace applies `run` to the translations `f_eq np`, `perturbation np` of the functions\n'
+    'of the same name of THIS module (each bound exactly once in the module, by its `def`).  In the fillers every Python `int` parameter is a Lean `Int`.\n')
+
+
+def translate_initfuncs(repo):
+    """pygyro/initialisation/initialiser_funcs.py: the scalar profile functions and the four array fillers"""
+    src = open(os.path.join(repo, INIT_REL)).read()
+    tree = ast.parse(src)
+    scalars = ['n0', 'Ti', 'perturbation', 'f_eq', 'n0deriv_normalised', 'Te', 'init_f']
+    fillers = ['init_f_flux', 'init_f_pol', 'init_f_vpar', 'feq_vector']
+    other = [n for n in tree.body if not isinstance(n, ast.FunctionDef) and not (isinstance(n, ast.Expr) and isinstance(n.value, ast.Constant))
+             and not (isinstance(n, ast.ImportFrom) and n.module == 'pyccel.decorators' and n.level == 0
+                      and [(x.name, x.asname) for x in n.names] == [('pure', None)])]
+    if other:
+        raise Refuse(other[0], 'module-level statement other than `from pyccel.decorators import pure` and function definitions', INIT_REL)
+    defs = {}
+    for nm in scalars + fillers:
+        f = [n for n in tree.body if isinstance(n, ast.FunctionDef) and n.name == nm]
+        if len(f) != 1 or len(module_bindings(tree, nm)) != 1:
+            raise Refuse(tree, '%s not bound exactly once, by a module-level def' % nm, INIT_REL)
+        defs[nm] = f[0]
+    st = ScalarFuncTranslator(INIT_REL)
+    order = sorted(scalars, key=lambda nm: defs[nm].lineno)      # callees first = source order (a call of a later function is refused)
+    sc_parts = [st.function(defs[nm]) for nm in order]
+    ext = {nm: ([t for _, t in st.sigs[nm]], 'Rat') for nm in ('f_eq', 'perturbation')}
+    tr = ArrayFuncTranslator(INIT_REL, '', int_type='Int', externals=ext)
+    tr.tree = tree
+    tr.numpy_empty = False
+    tr.int_builtin = not module_bindings(tree, 'int')
+    fl_parts = []
+    for nm in fillers:
+        fn = defs[nm]
+        used = sorted({n.func.id for n in ast.walk(fn) if isinstance(n, ast.Call) and isinstance(n.func, ast.Name)} & set(ext))
+        body = tr.function(fn)
+        sig, _ = tr.sigs[nm]
+        ps = []
+        for (q, t, _fin) in sig:
+            ps.append((q, t))
+            if t == 'Nat → Rat':
+                ps.append((q + '_len', 'Nat'))
+        fl_parts.append(body + '\n/-- `%s(…)` with the functions %s of this module in place of the uninterpreted parameters of `%s_.run` -/\n'
+                        'def %s (np : Np) (U : Nat → Rat) (F : Nat) %s : Out %s_.St :=\n  %s_.run U F %s %s\n'
+                        % (nm, ', '.join('`%s`' % u for u in used), nm, nm, ' '.join('(%s : %s)' % (q, t) for q, t in ps), nm, nm,
+                           ' '.join('(%s np)' % u for u in used), ' '.join(q for q, _ in ps)))
+    used_np = [x for x in NP_UNARY + NP_CONSTS if x in st.np_used]
+    fields = '\n'.join('  %s : %s' % (x, 'Rat' if x in NP_CONSTS else 'Rat → Rat') for x in used_np)
+    sha = hashlib.sha256('\n'.join(ast.get_source_segment(src, defs[nm]) or '' for nm in scalars + fillers).encode()).hexdigest()[:16]
+    head = ('/-\nGENERATED by harness/translate_pure.py from %s, functions %s\n(sha256 of their sources %s) — do not edit.\n%s%s%s%s-/\n'
+            'set_option linter.unusedVariables false\nnamespace PygyroVerif.Gen.InitFuncs\n\n'
+            '/-- numpy\'s elementary functions / constants the module uses: UNINTERPRETED (every theorem holds for every value of this record) -/\n'
+            'structure Np where\n%s\n\n'
+            % (INIT_REL, ', '.join(scalars + fillers), sha,
+               INITFUNCS_SEMANTICS % ', '.join('`%s`' % x for x in used_np), SPLINE_SEMANTICS, ARRAY_SEMANTICS_ND,
+               EXT_SEMANTICS.split('Calls of')[0], fields))
+    return head + '\n'.join(sc_parts) + '\n' + SPLINE_TYPES + '\n'.join(fl_parts) + '\nend PygyroVerif.Gen.InitFuncs\n'
+
+
 CROSS2D_SEMANTICS = (
     'The two loops `for i, x in enumerate(X)` / `for j, y in enumerate(Y)` are nested; every (der1, der2) branch of the source has its OWN copy of the four\n'
     'loops (they are numbered in source order: branch b = 0..3 owns loops 4b+1 … 4b+4: over X, over Y, over the rows k, over the columns l).  The local arrays\n'
@@ -2065,7 +2265,7 @@ VEC2D_SEMANTICS = (
     'Every (der1, der2) branch of the source has its OWN copy of the three loops (numbered in source order: branch b = 0..3 owns loops 3b+1 … 3b+3: over the\n'
     'points, over the rows, over the columns).  `for i in range(len(x))` makes `len(x)` iterations and reads `x[i]`, `y[i]` where the source does (the length of\n'
     '`y` is not consulted, as in the source); `for i, xi in enumerate(x)` as described above.  The array parameters of these two functions are NOT annotated\n'
-    '`Final`; the translation checks that only `z` is written (an array that is not `Final` may be handed to a `Final` parameter of a kernel).  The local\n'
+    '`Final` (an array that is not `Final` may be handed to a `Final` parameter of a kernel; the statements are translated as they stand: only `z` is written).  The local\n'
     'arrays `basis1`, `basis2`, `theCoeffs` are obtained ONCE with `empty` (contents `U`) and re-used by every iteration.  The branches are nested:\n'
     '`if der1 == 0: (if der2 == 0 … elif der2 == 1 …) elif der1 == 1: (…)`; when no branch applies the function returns without writing.\n')
 
